@@ -193,6 +193,32 @@ func init() {
 	}
 }
 
+// the framing and default fields addressed by their names through the generic setters: the value the application hands
+// over is taken over, replaced or dropped, but the field never appears twice and never opens a line of its own
+func init() {
+	for _, n := range []string{"Content-Length", "Transfer-Encoding", "Connection", "Content-Type", "Content-Encoding"} {
+		n := n
+		respEntries = append(respEntries,
+			respEntry{"ResponseHeader.Set(" + n + ")", func(ctx *app.RequestContext, p string) map[string]int { ctx.Response.Header.Set(n, p); return nil }, false},
+			respEntry{"ResponseHeader.Add(" + n + ")", func(ctx *app.RequestContext, p string) map[string]int { ctx.Response.Header.Add(n, p); return nil }, false},
+			respEntry{"ResponseHeader.SetCanonical(" + n + ")", func(ctx *app.RequestContext, p string) map[string]int {
+				ctx.Response.Header.SetCanonical([]byte(n), []byte(p))
+				return nil
+			}, false},
+			respEntry{"RequestContext.Header(" + n + ")", func(ctx *app.RequestContext, p string) map[string]int { ctx.Header(n, p); return nil }, false})
+	}
+	for _, n := range []string{"Content-Length", "Transfer-Encoding", "Connection", "Content-Type", "Host", "User-Agent"} {
+		n := n
+		reqEntries = append(reqEntries,
+			reqEntry{"RequestHeader.Set(" + n + ")", func(r *protocol.Request, p string) map[string]int { r.Header.Set(n, p); return nil }, false},
+			reqEntry{"RequestHeader.Add(" + n + ")", func(r *protocol.Request, p string) map[string]int { r.Header.Add(n, p); return nil }, false},
+			reqEntry{"RequestHeader.SetCanonical(" + n + ")", func(r *protocol.Request, p string) map[string]int {
+				r.Header.SetCanonical([]byte(n), []byte(p))
+				return nil
+			}, false})
+	}
+}
+
 var respEntries = []respEntry{
 	{"RequestContext.Header/value", func(ctx *app.RequestContext, p string) map[string]int {
 		ctx.Header("X-K", p)
